@@ -198,3 +198,15 @@ Lemma delivered_replies_update_jar_l P k c j q p :
 Proof.
   intros A B. unfold model_step. rewrite A. unfold urllib_outcome. rewrite B. reflexivity.
 Qed.
+
+(* "any cookies earlier responses set" is false of the faithful model for HTTPError replies:
+   a 500 reply setting a=1 leaves the jar empty *)
+Lemma reply_cookies_stored_refuted_l :
+  exists P k c j q p,
+    p_challenge p = None /\ p_cookies p <> [] /\
+    snd (model_step P k c j q p) <> fold_left jar_apply (map (resolve (q_path q)) (p_cookies p)) j.
+Proof.
+  exists std_params, TPlain, (None, None), [], (mkReq None [47; 115] [] 1),
+         (mkResp None 500 None 1 None None [CSet None [97] [49]]).
+  split; [reflexivity|]. split; [discriminate|]. vm_compute. discriminate.
+Qed.
